@@ -862,4 +862,16 @@ instantiate_generic_impl(const ASTNode *impl_node,
     return {instantiated_interface, instantiated_struct, nullptr};
 }
 
+#ifdef CB_VERIF
+// verification hook: exposes substitute_type_string to the correspondence
+// check (driven from main.cpp when CB_VERIF_SUBST is set)
+std::string
+verif_substitute_type_string(const std::string &type_name,
+                             const std::map<std::string, std::string> &type_map,
+                             const GenericEnumPredicate &is_generic_enum) {
+    GenericEnumPredicateScope predicate_scope(is_generic_enum);
+    return substitute_type_string(type_name, type_map);
+}
+#endif
+
 } // namespace GenericInstantiation
